@@ -214,7 +214,7 @@ def run(rep, tier, seed, only=None):
         "structure functions entering get_result are abstract (contract of get_esf); their content is C01-C10 matter",
         "np.pi and the conversion constants are read as the exact rationals of their doubles on both sides",
     )
-    for nm, f in (("coeffs", sec_coeffs), ("get_result", sec_get_result), ("xs", sec_xs)):
+    for nm, f in (("coeffs", sec_coeffs), ("get_result", sec_get_result), ("xs", sec_xs), ("names", H.observable_names_contract)):
         if only and only not in nm:
             continue
         rep.add(guarded(f"C11/{nm}", lambda f=f: (f(rep), [])[1]))
